@@ -62,6 +62,10 @@ CLAIMED = {
          "Exploration by runtime monitoring: valid programs in which instances, near-misses and don't-care forms of the checks 5, 7, 8, 13, 14, 15, 16, 19, 20 and 21 (80 site classes) are planted one per line at random nesting depths and, for expression patterns, in random expression contexts; for every site and each of the ten types the number of published diagnostics touching the line must equal the expectation (MUST n / MUST-NOT 0); everything the documentation does not settle is DON'T-CARE.",
          "The expectation table is written from docs/manual/config.md and the setting descriptions; sites are one per line so that attribution by line is exact.",
          "DESIGN.md 3/C20"),
+ "C19": ("online monitor: documentSymbol and workspace/symbol answers vs the list of planted declarations (positions from the reference lexer)",
+         "Exploration by runtime monitoring: generated files with uniquely named top-level locals, global variables, global/local functions (statement and assignment forms), tables with function members, t.f / t:m / localtable.f / a.b.c function statements, globals assigned in blocks and annotated class tables; every planted declaration must appear in the document outline (any depth) with a well-formed range that contains its declaring identifier, and every global/function must be returned by workspace/symbol for its exact name at that declaration.",
+         "Completeness is judged for the planted declaration kinds only; locals and functions nested inside function bodies are not required. Three-level member functions are finding C19-K1.",
+         "DESIGN.md 3/C19"),
 }
 
 PENDING_REASON = "check not built yet in this revision of /verif (work in progress; see DESIGN.md section 3 for the planned monitor)"
